@@ -8,29 +8,6 @@ VERIF = os.path.dirname(os.path.dirname(os.path.abspath(__file__)))
 
 # property -> (technique, level text, level note, design ref)
 CLAIMED = {
-    "C02": (
-        "TLA+ relations (Mesh.tla) + TLC-enumerated tables replayed into Grid.from_topology, outputs judged by TLC",
-        "TLC enumerates every face-node table of a small scope (quick: 4 nodes x <=2 faces exhaustive plus samples of "
-        "5 nodes x 2 faces and 4 nodes x 3 faces; thorough: all of them), proves on each that the implementation-shaped "
-        "transcription of the edge algorithm (MeshAlg.tla) satisfies the declarative edge relations (Mesh.tla), and dumps "
-        "the tables; every table is built through the public constructor in several access orders and the recorded "
-        "edge_node / face_edge / n_nodes_per_face / n_edge values are judged by TLC against the relations, as are random "
-        "mixed 3..8-gon meshes far larger than the enumerated scope. Bounded-exhaustive for the property's quantifier "
-        "(all tables), which is the right level for a total combinatorial function.",
-        "TLC evaluator and Json module; projection of integer tables (fill value -> -1 after dtype/fill flags are recorded); "
-        "large meshes are sampled, not enumerated",
-        "DESIGN.md 6/C02",
-    ),
-    "C03": (
-        "TLA+ relations (Mesh.tla) + TLC-enumerated manifold tables replayed into Grid.from_topology, outputs judged by TLC",
-        "TLC enumerates every manifold face-node table of a small scope, proves on each that the transcribed node_face / "
-        "edge_face (two-slot loop) / face_face builders satisfy the declarative transposition relations, and dumps the tables; "
-        "each is built through the public constructor in several access orders, and node_face, edge_face, face_face, "
-        "hole_edge_indices and their dtype/fill flags are judged row by row by TLC (a neighbour credited to the wrong face "
-        "fails its own row). Random planar meshes with holes and isolated faces are judged the same way.",
-        "TLC evaluator and Json module; projection of integer tables; non-manifold tables are outside the quantifier and skipped",
-        "DESIGN.md 6/C03",
-    ),
     "C20": (
         "TLA+ state machines of grid pairs under single-entry edits (GridEq.tla) and of two live grids under derivations, setter / in-place edits, copies and comparisons (GridEqHist.tla); TLC checks the equality laws, emits pairs and histories with oracle; replayed on real grids, traces validated by TraceGridEq.tla",
         "TLC explores every pair of grids reachable from a common base by up to two single-entry edits on one side (thorough: "
